@@ -1,7 +1,7 @@
 SPECIFICATION Spec
 CONSTANTS
   Thr = {1, 2, 3, 4}
-  MaxOps = 2
-  MaxTok = 16
+  MaxOps = 1
+  MaxTok = 8
 INVARIANT Exclusion
 PROPERTY Progress
